@@ -32,6 +32,10 @@ struct St {
     expanded: bool,
     // the XPath evaluation context of the caller, kept across the whole history
     qctx: std::cell::RefCell<xml_xpath::eval::model::Context>,
+    // SECOND HANDLES: the child list of every node that can have children, obtained when the node was first seen and kept
+    // (a NodeList is live: whenever it is read it must list what a fresh child_nodes() lists)
+    held: Vec<(XmlNode, xml_dom::XmlNodeList)>,
+    held_maps: Vec<(XmlNode, xml_dom::XmlNamedNodeMap<xml_dom::XmlAttr>)>,
 }
 
 impl St {
@@ -42,6 +46,12 @@ impl St {
             let id = node.id();
             if id != 0 && !self.by_id.contains_key(&id) {
                 self.by_id.insert(id, self.handles.len());
+                if !self.expanded && matches!(node.node_type(), NodeType::Element | NodeType::Document | NodeType::Attribute) {
+                    self.held.push((node.clone(), node.child_nodes()));
+                    if let Some(m) = node.attributes() {
+                        self.held_maps.push((node.clone(), m));
+                    }
+                }
             }
         }
         self.handles.push(n);
@@ -293,6 +303,25 @@ fn monitors(st: &St, exprs: &[String]) -> String {
     if ne > 1 || nt > 1 {
         bad.push(format!("document has {} elements and {} doctypes", ne, nt));
     }
+    for (n, m) in st.held_maps.iter() {
+        let ids = |m: &xml_dom::XmlNamedNodeMap<xml_dom::XmlAttr>| -> Vec<usize> { (0..m.length()).filter_map(|i| m.item(i)).map(|k| k.as_node().id()).collect() };
+        if let Some(f) = n.attributes() {
+            let (a, b) = (ids(m), ids(&f));
+            if a != b {
+                bad.push(format!("a NamedNodeMap obtained earlier from element {} lists {:?} where a fresh attributes() lists {:?}", n.id(), a, b));
+                break;
+            }
+        }
+    }
+    // the lists held since the nodes were first seen are live
+    for (n, l) in st.held.iter() {
+        let ids = |l: &xml_dom::XmlNodeList| -> Vec<usize> { (0..l.length()).filter_map(|i| l.item(i)).map(|k| k.id()).collect() };
+        let (a, b) = (ids(l), ids(&n.child_nodes()));
+        if a != b {
+            bad.push(format!("a NodeList obtained earlier from node {} lists {:?} where a fresh child_nodes() lists {:?}", n.id(), a, b));
+            break;
+        }
+    }
     // every node of the document names that document as its owner; the document itself has none
     {
         fn owners(n: &XmlNode, doc_id: usize, bad: &mut Vec<String>, depth: usize) {
@@ -463,7 +492,7 @@ fn monitors(st: &St, exprs: &[String]) -> String {
     let text = format!("{}", st.doc);
     let (rt, q) = match XmlDocument::from_raw_with_context(&text, Context::from_text_expanded(st.expanded)) {
         Ok(("", d2)) => {
-            let fresh = St { doc: d2.clone(), handles: vec![], by_id: HashMap::new(), expanded: st.expanded, qctx: Default::default() };
+            let fresh = St { doc: d2.clone(), handles: vec![], by_id: HashMap::new(), expanded: st.expanded, qctx: Default::default(), held: vec![], held_maps: vec![] };
             let a = plain_dump(&st.doc.as_node());
             let b = plain_dump(&fresh.doc.as_node());
             // with text expansion on, the segmentation of character data into merged nodes is not comparable
@@ -537,7 +566,7 @@ fn strip(f: &str) -> String {
 
 // dump without handles, adjacent text nodes merged (what a re-parse can reproduce)
 fn plain_dump(n: &XmlNode) -> String {
-    let empty = St { doc: match n { XmlNode::Document(d) => d.clone(), _ => return String::new() }, handles: vec![], by_id: HashMap::new(), expanded: false, qctx: Default::default() };
+    let empty = St { doc: match n { XmlNode::Document(d) => d.clone(), _ => return String::new() }, handles: vec![], by_id: HashMap::new(), expanded: false, qctx: Default::default(), held: vec![], held_maps: vec![] };
     let mut seen = vec![];
     let d = dump(&empty, n, 0, &mut seen).replace("h?:", "");
     // an empty text node denotes no character; adjacent text nodes read back as one; a reference to a predefined
@@ -879,7 +908,7 @@ fn dom_with(args: &[String], expanded: bool) -> String {
         _ => return "err:doc".to_string(),
     };
     let exprs: Vec<String> = args[1].split(';').filter(|s| !s.is_empty()).map(|s| s.to_string()).collect();
-    let mut st = St { doc: doc.clone(), handles: vec![], by_id: HashMap::new(), expanded, qctx: Default::default() };
+    let mut st = St { doc: doc.clone(), handles: vec![], by_id: HashMap::new(), expanded, qctx: Default::default(), held: vec![], held_maps: vec![] };
     let root = doc.as_node();
     st.number(&root, 0);
     let mut out: Vec<String> = vec![];
@@ -998,7 +1027,7 @@ pub fn foreign(args: &[String]) -> String {
         }
     }
     let after = (format!("{}", d1), format!("{}", d2));
-    let st = St { doc: d1.clone(), handles: vec![], by_id: HashMap::new(), expanded: false, qctx: Default::default() };
+    let st = St { doc: d1.clone(), handles: vec![], by_id: HashMap::new(), expanded: false, qctx: Default::default(), held: vec![], held_maps: vec![] };
     let mon = monitors(&st, &[]);
     let same = if before == after && mon.starts_with("inv=ok") { "same".to_string() } else { format!("CHANGED {} -> {} / {}", e(&before.0), e(&after.0), mon) };
     format!("{} | {}", out.join(";"), same)
